@@ -5,6 +5,9 @@ Requests
   `reset`                 → fresh `St` (a new `Koto` instance); response `ok`
   `ev <tok> <tok> …`      → apply the events to the current state; response = state summary
   `state`                 → state summary
+  `gen <tok>… / <tok>… …` → a generator VM (`genInit`) resumed once per `/`-separated event group
+                            (`genResume`); response `frames seq str finished` (hook H5 reports the
+                            first three for a real generator)
 
 Event tokens (`Model/Unwind.lean : Ev`):
   `nf:N` newFrame · `ts:R:IP` tryStart · `te` tryEnd · `call:FB:A` call · `cn:FB` callNative ·
@@ -78,6 +81,14 @@ def stepLine (st : St) (line : String) : St × String :=
       let st' := run evs st
       (st', summary st')
     | none => (st, "bad-request")
+  | "gen" :: toks =>
+    -- one generator VM: resumptions separated by `/`; answer `frames seq str finished`
+    let groups := (" ".intercalate toks).splitOn "/"
+    let parsed := groups.map (fun g => ((g.splitOn " ").filter (· ≠ "")).mapM parseEv)
+    if parsed.any Option.isNone then (st, "bad-request")
+    else
+      let vm := (parsed.filterMap id).foldl (fun vm evs => (genResume evs vm).vm) (genInit 0)
+      (st, s!"{vm.stack.length} {vm.seq} {vm.str} {if genFinished vm then 1 else 0}")
   | _ => (st, "bad-request")
 
 def main : IO Unit := Proto.serveSt ({} : St) stepLine
